@@ -183,6 +183,7 @@ def main(argv=None):
   for t in mod.tasks(a.tier, seed):
     hname, cfg = t[0], t[1]
     caps = {"task_s": 300 if a.tier == "quick" else 2400}
+    if a.tier != "quick": caps["path_s"] = 600          # the per-path watchdog is wall-clock: generous on loaded machines
     if a.tier == "thorough" or os.environ.get("VERIF_XSOLVER"): caps["dump_queries"] = 4
     caps.update(getattr(mod, "CAPS", {}).get(a.tier, {}))
     if len(t) > 2 and t[2]:
@@ -273,7 +274,10 @@ def report(a, mod, results, wall, seed, extra=None):
       i = dict(i, harness=r["harness"], cfg=r["cfg"])
       (opt_inconcl if r["optional"] else inconcl).append(i)
     for e in r["errors"]:
-      errors.append(dict(e, harness=r["harness"], cfg=e.get("cfg", r["cfg"])))
+      e = dict(e, harness=r["harness"], cfg=e.get("cfg", r["cfg"]))
+      # an optional attempt claims nothing: its engine trouble (model queries timing out, ...) is reported with it
+      if r["optional"]: opt_inconcl.append(dict(e, clause="engine"))
+      else: errors.append(e)
 
   if extra:
     violations.extend(extra.get("violations", []))
